@@ -31,6 +31,10 @@ CLAIMS = {
          "Proof over listed obligations: AnnounceRequest.ip_address has zero reads in aquatic_udp (positive control: .port), HTTP/WS requests have no address field or query key; the ip that forms the peer-map key is chased hop by hop through every caller to recv_from().1 / the recvmsg name / TcpStream::peer_addr or parse_forwarded_header's result, switched exactly by runs_behind_reverse_proxy; CanonicalSocketAddr literals exist only in its constructor whose decision table is exactly ::ffff:a.b.c.d -> V4(a.b.c.d, port); the WebTorrent family classifier has the same 12-byte pattern; family selection uses the canonical address.",
          "Trusted: kernel-reported addresses, httparse, std IpAddr parsing. Not decided: dual-stack kernel behaviour.",
          "DESIGN.md section 2, C03"),
+ "C08": ("exhaustive path/effect tables of the WebTorrent peer bookkeeping + identity-pair guard analysis of the ownership rule",
+         "Necessary conditions decided on every enumerated path: status table; the complete (entry x status x old seeder flag) effect table of insert_or_update_peer equals delta = new_seeder - old_seeder with the right structural operation; connection-closed and cleaning effects; closed set of functions that mutate the peer map or the seeder counter; every update of an existing entry and every removal on connection close is dominated by equality of BOTH identity components (socket worker id, connection id) - the rule that exposed two genuine defects, repaired by fix: commits 0628e14 and 259330c; reply counts read after the update; scrape only reports stored torrents.",
+         "Not decided: equivalence with a reference tracker over all histories (the local effect tables are necessary, not sufficient); indexmap semantics trusted.",
+         "DESIGN.md section 2, C08"),
 }
 
 PENDING_REASON = "check under construction in this build phase (static rules designed in DESIGN.md section 2); not claimed until its rule set is validated both ways"
